@@ -44,8 +44,11 @@ type WordList struct {
 	unCapitalizableCount int
 }
 
-// Size of the wordlist in the recipe
+// Size of the wordlist in the recipe. It is 0 if the recipe has no wordlist.
 func (r WLRecipe) Size() uint32 {
+	if r.list == nil {
+		return 0
+	}
 	return r.list.Size()
 }
 
